@@ -3,14 +3,6 @@ package type3
 // C06: the attester accepts a rate-limited request only if it is authentic, and a rejected
 // request never touches the client-state cache.
 
-type c06Cache struct {
-	m    map[string]*ClientState
-	puts int
-}
-
-func (c *c06Cache) Get(id string) (*ClientState, bool) { s, ok := c.m[id]; return s, ok }
-func (c *c06Cache) Put(id string, s *ClientState)       { c.m[id] = s; c.puts++ }
-
 // replace b by arbitrary other bytes of the same length (covers every single-bit corruption)
 func c06Other(name string, b []byte) []byte {
 	o := vBytes(name, len(b), len(b))
@@ -29,8 +21,11 @@ func VerifC06_attester_authentic() {
 	vAssume(blind[0] != 0)
 	st, err := client.CreateTokenRequest(vBytesC("challenge", 0, 1), vBytes("nonce", 32, 32), blind, issuer.TokenKeyID(), issuer.TokenKey(), "a", issuer.NameKey())
 	vAssume(err == nil)
+	if vBool("marshalled_before") {
+		// the request object may already carry a cached encoding when its fields are changed
+		_ = st.Request().Marshal()
+	}
 	req := *st.Request()
-	req.raw = nil
 	clientKey := st.ClientKey()
 	anon := vBytes("anon_origin", 8, 8)
 	cache := &c06Cache{m: map[string]*ClientState{}}
